@@ -122,7 +122,13 @@ func c17Apply(s Store, o c17Op) string {
 		n, err := s.NextOffset(ctx, c17Topics[o.A], int32(o.B))
 		return fmt.Sprintf("%d:%s", n, c17ErrClass(err))
 	case "Commit":
-		return c17ErrClass(s.CommitConsumerOffset(ctx, c17GroupIDs[o.A], "t1", 0, int64(o.B), fmt.Sprintf("m%d", o.B)))
+		// B encodes offset and metadata: 0 -> (0,"m0"), 5 -> (5,"m5"), 7 -> (7,"") : a re-commit with empty
+		// metadata must replace the stored metadata on both stores
+		md := fmt.Sprintf("m%d", o.B)
+		if o.B == 7 {
+			md = ""
+		}
+		return c17ErrClass(s.CommitConsumerOffset(ctx, c17GroupIDs[o.A], "t1", 0, int64(o.B), md))
 	case "FetchOffset":
 		off, meta, err := s.FetchConsumerOffset(ctx, c17GroupIDs[o.A], "t1", int32(o.B))
 		return fmt.Sprintf("%d:%s:%s", off, meta, c17ErrClass(err))
@@ -173,7 +179,7 @@ func c17Alphabet() (mut []c17Op, obs []c17Op) {
 		obs = append(obs, c17Op{"NextOffset", a, 0}, c17Op{"NextOffset", a, 1}, c17Op{"FetchConfig", a, 0}, c17Op{"Metadata", a, 1})
 	}
 	for g := range c17GroupIDs {
-		mut = append(mut, c17Op{"Commit", g, 0}, c17Op{"Commit", g, 5}, c17Op{"PutGroup", g, 0}, c17Op{"PutGroup", g, 1}, c17Op{"DeleteGroup", g, 0})
+		mut = append(mut, c17Op{"Commit", g, 0}, c17Op{"Commit", g, 5}, c17Op{"Commit", g, 7}, c17Op{"PutGroup", g, 0}, c17Op{"PutGroup", g, 1}, c17Op{"DeleteGroup", g, 0})
 		obs = append(obs, c17Op{"FetchOffset", g, 0}, c17Op{"FetchOffset", g, 1}, c17Op{"FetchGroup", g, 0})
 	}
 	obs = append(obs, c17Op{"ListOffsets", 0, 0}, c17Op{"ListGroups", 0, 0}, c17Op{"Metadata", 0, 0})
